@@ -431,62 +431,3 @@ pub fn new_inner_unicode<const LEAD: u8, const TAIL: u8, const CASE: u8, const N
     }
     kani::cover!(TAIL != 0 || !ESC || n < L);
 }
-
-// ----------------------------------------------------------------------------------------------
-// C15: match_list returns exactly the matching inputs, each once, stably sorted by descending score
-// ----------------------------------------------------------------------------------------------
-pub fn match_list_three<const K1: u8, const NEG1: bool>() {
-    let raw: [[u8; 2]; 3] = kani::any();
-    let mut k = 0;
-    while k < 3 {
-        kani::assume(raw[k][0] < 128 && raw[k][1] < 128 && !(raw[k][0] == b'\r' && raw[k][1] == b'\n'));
-        k += 1;
-    }
-    let items: [&str; 3] = [
-        unsafe { std::str::from_utf8_unchecked(&raw[0]) },
-        unsafe { std::str::from_utf8_unchecked(&raw[1]) },
-        unsafe { std::str::from_utf8_unchecked(&raw[2]) },
-    ];
-    let a1 = any_atom::<1>(K1, NEG1);
-    let (base, _) = base_config(0);
-    let pat = Pattern { atoms: vec![a1.clone()] };
-    // reference: score of each input on its own
-    let mut expect: [Option<u32>; 3] = [None; 3];
-    let mut k = 0;
-    while k < 3 {
-        expect[k] = spec_atom(&a1, &raw[k], &base, None).map(|s| s as u32);
-        k += 1;
-    }
-    let mut m = small_matcher(base.clone(), crate::fuzzy_optimal::verif_optimal::SLAB);
-    let out = pat.match_list(items, &mut m);
-    // exactly the matching inputs, each once
-    let n_match = expect.iter().filter(|e| e.is_some()).count();
-    assert!(out.len() == n_match, "match_list returns exactly the matching inputs, each once");
-    // descending score, and inputs of equal score keep their input order (stable): the output is
-    // the subsequence of matching inputs ordered by (score desc, input position asc)
-    let mut used = [false; 3];
-    let mut o = 0;
-    while o < out.len() {
-        // the next output must be the not-yet-used matching input with the highest score, first in input order
-        let mut best: Option<usize> = None;
-        let mut k = 0;
-        while k < 3 {
-            if !used[k] {
-                if let Some(s) = expect[k] {
-                    match best {
-                        Some(b) if expect[b].unwrap() >= s => {}
-                        _ => best = Some(k),
-                    }
-                }
-            }
-            k += 1;
-        }
-        let b = best.unwrap();
-        used[b] = true;
-        assert!(out[o].1 == expect[b].unwrap(), "scores are in descending order and are the pattern's scores");
-        assert!(out[o].0.as_ptr() == items[b].as_ptr(), "inputs of equal score keep their input order (stable sort); each input appears once");
-        o += 1;
-    }
-    kani::cover!(out.len() == 3);
-    std::mem::forget(m);
-}
